@@ -1,5 +1,7 @@
 import RtenVerif.Lemmas.IterNew
 import RtenVerif.Lemmas.IterMap
+import RtenVerif.Lemmas.IterSched
+import RtenVerif.Lemmas.IterPartition
 
 /-!
 # C07 — Tensor iterators yield exactly the logical elements in order
@@ -82,6 +84,33 @@ theorem c07_inner_history (dims : List (Nat × Nat)) (n : Nat) (h : Hist) :
     (if minDataLen (dims.drop (dims.length - n)) = 0
       then (dims.take (dims.length - n)).map (fun d => (d.1, 0)) else dims.take (dims.length - n))
   rw [run_refines (mapOps_refines _) h _ hinv, habs]
+
+/-! ### Parallel schedules and partition -/
+
+/-- **C07.T1-par** Whatever split tree a parallel scheduler chooses (valid split points, i.e.
+no `split_at` panics), folding every leaf and concatenating in leaf order gives exactly the
+row-major offset list: each element once, in order. -/
+theorem c07_iter_par_schedule (dims : List (Nat × Nat)) (T : Sched)
+    (hp : Obs.panic ∉ run Offsets.ops T.toHist (Offsets.new dims)) :
+    collected (run Offsets.ops T.toHist (Offsets.new dims)) = rowMajor dims := by
+  rw [c07_iter_history] at hp ⊢
+  exact sched_list T _ hp
+
+/-- Non-vacuity: a 3-leaf schedule on the transposed 3×3 tensor does not panic. -/
+example : Obs.panic ∉ run Offsets.ops (Sched.node 5 (.node 2 .leaf .leaf) .leaf).toHist
+    (Offsets.new [(3, 1), (3, 3)]) := by decide
+
+/-- **C07.T3c** The inner views of `inner_iter(n)` partition the tensor: when the inner views
+are non-empty, concatenating the element offsets of the logical inner-view list gives the
+row-major offset list of the whole layout (each element in exactly one view, in order). -/
+theorem c07_inner_partition (dims : List (Nat × Nat)) (n : Nat)
+    (hne : minDataLen (dims.drop (dims.length - n)) ≠ 0) :
+    (innerSpec dims n).flatMap (·.2) = rowMajor dims := by
+  unfold innerSpec
+  simp only [hne, if_false, List.flatMap_map, innerItem]
+  rw [← rowMajor_append, List.take_append_drop]
+
+example : minDataLen ([(2, 6), (3, 2), (2, 1)].drop (3 - 2)) ≠ 0 := by decide
 
 /-! ### Non-vacuity: concrete non-trivial histories (kernel-evaluated) -/
 
